@@ -57,6 +57,9 @@ def cases(draw):
         # classes name it as their __module__ (_datetime.date.__module__ == "datetime")
         "zip": draw(st.booleans()),
         "twin": draw(st.sampled_from([None, "datetime", "decimal", "sqlite3", "zoneinfo"])),
+        # where the project lies relative to the interpreter's own module search path: PYTHONPATH=~/src with the
+        # untrusted clone at ~/src/clone ("below"), or at ~/src-fork ("beside": the name extends the entry as a string)
+        "placement": draw(st.sampled_from([None, None, "below", "beside"])),
     }
 
 
@@ -128,11 +131,23 @@ def host_state(root):
 def run_case(ctx, case):
     jedi = boot.jedi_boot()
     top = Path(os.path.realpath(boot.fresh_dir("c12")))
-    root = top / "proj"
+    placement = case.get("placement")
+    env = None
+    if placement:
+        (top / "src").mkdir()
+        root = top / "src" / "clone" if placement == "below" else top / "src-fork"
+        if not (case.get("pyc_only") and case["pyc_only"] in case["mods"]):
+            case = dict(case, pyc_only=case["mods"][0])     # a module that can only be loaded, not read
+    else:
+        root = top / "proj"
     root.mkdir()
     sdir = top / "sentinels"
     sdir.mkdir()
     files = build_tree(root, sdir, case)
+    if placement:
+        envv = dict(os.environ)
+        envv["PYTHONPATH"] = str(top / "src")
+        env = jedi.create_environment(boot.PY, safe=False, env_vars=envv)
     env_path = None
     opt = case["option"]
     kw = {}
@@ -154,12 +169,21 @@ def run_case(ctx, case):
     located = 0
     devs = []
 
-    def check(where):
+    def check(where, code=""):
         left = sorted(os.listdir(sdir))
         if left:
             who = {f.rsplit(".", 1)[-1] for f in left}
             side = "host" if str(os.getpid()) in who else "helper"
-            devs.append(("project-code-executed:%s:%s" % (side, opt), "%s -> sentinels %s (files %s)" % (where, left, case["mods"] + case["pkgs"])))
+            if placement == "below" and side == "helper" and code.startswith("from . import"):
+                # shape class of a pinned finding: the project directory is a namespace package of the interpreter's OWN
+                # search path (PYTHONPATH=~/src, project ~/src/clone), the buffer's relative import names clone.<module>, and
+                # the sourceless module is loaded through the interpreter's path, which jedi trusts by design
+                devs.append(("project-code-executed:helper:project-is-namespace-package-of-interpreter-path:relative-import",
+                             "%s -> sentinels %s (option %s)" % (where, left, opt)))
+                for f in left:
+                    os.unlink(sdir / f)
+                return
+            devs.append(("project-code-executed:%s:%s%s" % (side, opt, ":project-%s-interpreter-path" % placement if placement else ""), "%s -> sentinels %s (files %s)" % (where, left, case["mods"] + case["pkgs"])))
             for f in left:
                 os.unlink(sdir / f)
 
@@ -173,7 +197,7 @@ def run_case(ctx, case):
             else:
                 spath = None
             lines = code.split("\n")
-            s = boot.fresh_script(code, path=spath, project=project)
+            s = boot.fresh_script(code, path=spath, project=project, **({"environment": env} if env is not None else {}))
             ctx.count()
             positions = [(i + 1, len(l)) for i, l in enumerate(lines) if l.strip()]
             for line, col in positions:
@@ -194,7 +218,7 @@ def run_case(ctx, case):
                             o.goto(follow_imports=True)
                         except Exception:
                             pass
-                    check("%s at %s of %r" % (m, (line, col), code[:40]))
+                    check("%s at %s of %r" % (m, (line, col), code[:40]), code)
             for m, kwargs in (("get_names", {"all_scopes": True}), ("get_syntax_errors", {})):
                 try:
                     getattr(s, m)(**kwargs)
@@ -205,7 +229,7 @@ def run_case(ctx, case):
                 list(s.complete_search(name[:2]))
             except Exception:
                 pass
-            check("names/search of %r" % code[:40])
+            check("names/search of %r" % code[:40], code)
             line, col = positions[0][0], max(0, positions[0][1] - 1)
             for m, kwargs in (("rename", {"new_name": "renamed_xyz"}), ("inline", {}),
                               ("extract_variable", {"new_name": "extracted_v"}), ("extract_function", {"new_name": "extracted_f"})):
@@ -215,7 +239,7 @@ def run_case(ctx, case):
                     r.get_changed_files()
                 except Exception:
                     pass
-            check("refactorings on %r" % code[:40])
+            check("refactorings on %r" % code[:40], code)
         try:
             list(project.search("Klass"))
             list(project.complete_search("func"))
@@ -238,7 +262,15 @@ def run_case(ctx, case):
             else:
                 diff = (before[k], after[k])
             devs.append(("host-state-changed:" + k, "%s" % (diff,)))
-    ctx.cls("option:" + opt, "script:" + case["script_in_project"])
+    ctx.cls("option:" + opt, "script:" + case["script_in_project"], "placement:%s" % placement)
+    if env is not None:
+        sub = getattr(env, "_subprocess", None)
+        del env, s
+        if sub is not None:
+            try:
+                sub._cleanup_callable()
+            except Exception:
+                pass
     for f in files:
         ctx.cls("file:" + f)
     if located:
